@@ -39,6 +39,7 @@ func init() {
 	ruleText["R14.3"] = "for each wrapped package and release: bound names = exported, non-generic, non-constraint package-level objects of the installed library minus objects first declared by GOROOT/api files of later releases"
 	ruleText["R14.4"] = "the table key is importpath + \"/\" + the package's declared name; a key is assigned once per build configuration; the build constraint of a go1_NN_ file selects exactly release NN (go1_21) or >= NN (go1_22)"
 	ruleText["R14.6"] = "every use of a package's Symbols variable is a validated binding statement (Symbols[\"k\"] = map literal, Symbols[\"k\"][\"N\"] = v with constant keys), the self-description reflect.ValueOf(Symbols), or a read of an entry value: no write under computed keys, delete, reassignment or map-typed alias"
+	ruleText["R14.7"] = "same analysis as C13/R13.6: every map stored into Interpreter.binPkg[k] is created by the storing function, never a map of the Exports argument - the per-interpreter re-bindings of fixStdlib cannot reach the shipped tables"
 	ruleText["R14.5"] = "wrapper struct: field 0 is IValue interface{}, the other fields are exactly W<M> for each exported method M of the interface (for the file's release), typed identically to M's signature; method M of the wrapper has that signature and its body is a single call W.W<M>(params in order[, last...]) returned iff M has results (the nil guard on String is the one accepted extra statement)"
 }
 
@@ -646,10 +647,13 @@ func runC14(c *Config, r *Report) {
 	stats := &c14stats{}
 	mu := &sync.Mutex{}
 	rebinds := map[string]bool{}
-	if ic, err := loadInterp(c, false); err != nil {
+	if ic, err := loadInterp(c, true); err != nil {
 		r.Errorf("%v", err)
 		return
 	} else if _, ovs := fixStdlibOverrides(ic, r); ovs != nil {
+		// R14.7: the interpreter works on its own copy of the tables: Use and the per-interpreter
+		// re-binding (fixStdlib) never write into the shipped maps (same analysis as C13/R13.6)
+		checkBinPkgOwnership(ic, r, "R14.7")
 		for _, o := range ovs {
 			if cst := hostConstRebind(ic, o.val); cst != nil && cst.Pkg() != nil && cst.Pkg().Path() == o.pkgPath && cst.Name() == o.name {
 				rebinds[o.pkgPath+"."+o.name] = true
